@@ -289,6 +289,7 @@ def _adaptive_threads(ctx, viol, tier, rng, world):
             spec.add((tuple(tuple(r) for r in res), OPS["call"](st)))
         pr = [[OPS[o] for o in th] for th in prog]
         prefix, n, mode, rw = [], 0, "dfs", 0
+        deep = sched.Deepening(2, limit)
         desc = {"adaptive_threads": {"initial": list(init), "program": prog}}
         while True:
             r = sched.run_schedule(make, pr, prefix=prefix if mode == "dfs" else (), rng=None if mode == "dfs" else rng)
@@ -308,8 +309,8 @@ def _adaptive_threads(ctx, viol, tier, rng, world):
                 viol("adaptive-non-linearizable", f"{desc}: results {got} equal no sequential ordering ({len(spec)} sequential outcomes); schedule {key}", dict(desc, schedule=key))
                 break
             if mode == "dfs":
-                nxt = sched.next_prefix(s_.trace, 2)
-                if nxt is None or n >= limit:
+                nxt = deep.next(s_.trace)
+                if nxt is None:
                     mode = "random"
                     continue
                 prefix = nxt
